@@ -42,8 +42,8 @@ double xv_arg3_num(const XObjectPtr* a) __CPROVER_requires(g_has3) __CPROVER_ass
 @@FN getSubstringLength@@
 
 static void xv_havoc(void) { size_t p; bool b; double c, r; g_p = p; g_has3 = b; g_c = c; g_r3 = r; }
-void h_getStartIndex(void) { xv_havoc(); double a; size_t l; getStartIndex(a, l); }
-void h_getSubstringLength(void) { xv_havoc(); size_t l, s; double a; getSubstringLength(0, l, s, a, 0); }
+void h_getStartIndex(void) { xv_havoc(); double ha; size_t hl; getStartIndex(ha, hl); }
+void h_getSubstringLength(void) { xv_havoc(); size_t hl, hs; double ha; getSubstringLength(0, hl, hs, ha, 0); }
 '''
 
 START_CONTRACT = r'''
@@ -102,5 +102,5 @@ UNIT = Unit(
     mechanisms=['op-code interpreter'],
     assumptions=['XObject::num() of the third argument is XPath number() (accessor stub)', 'string lengths <= 2^40 units',
                  'DoubleSupport::round / lessThanOrEqual contracts as proved in c18_round / c02_dsarith'],
-    replay='substring', replay_inputs={'a': '*::a', 'l': '*::l', 's': '*::s', 'c': '*::g_c', 'has3': '*::g_has3'},
+    replay='substring', replay_inputs={'a': '*::ha', 'l': '*::hl', 's': '*::hs', 'c': '*::g_c', 'has3': '*::g_has3'},
 )
